@@ -37,12 +37,51 @@ def concrete_of(mm, typ):
     return out
 
 
+def allowed_classes(mm, attr):
+    """Classes a containment attribute can hold (data lookup used for *generating* graphs only)."""
+    return list(attr["alts"]) if attr["typ"] == "OBJECT" else concrete_of(mm, attr["typ"])
+
+
 def keyword(cname):
-    return cname.lower()
+    """Class keyword of the carrier; the closing bracket keeps keywords prefix-free whatever the class names."""
+    return f"<{cname}>"
 
 
-def grammar_of(mm):
-    """A recursive carrier grammar: every class is `kw [name] { attr: value ... }`."""
+# Names: the module's names are abstract tokens; a carrier variant decides how they are written.
+#   ID:     name=ID,     [T]          x -> x
+#   INT:    name=INT,    [T|INT]      the i-th name of NAME_POOL -> i      (x -> 0, a falsy value)
+#   STRING: name=STRING, [T|STRING]   x -> "" (falsy), every other name -> "name"
+NAME_POOL = ["x", "y", "z", "w", "v", "u", "t", "s"]
+
+
+def name_value(nametype, nm):
+    """The Python value textX gives the name / reference text (also the key of a builtins entry)."""
+    if nametype == "INT":
+        return NAME_POOL.index(nm)
+    if nametype == "STRING":
+        return "" if nm == "x" else nm
+    return nm
+
+
+def name_text(nametype, nm):
+    v = name_value(nametype, nm)
+    if nametype == "INT":
+        return str(v)
+    if nametype == "STRING":
+        return '"' + v + '"'
+    return v
+
+
+def name_of_message(nametype, txt):
+    """Abstract name for the text an error message shows (None when it is not one of ours)."""
+    for nm in (NAME_POOL if nametype != "ID" else [txt]):
+        if str(name_value(nametype, nm)) == txt:
+            return nm
+    return None
+
+
+def grammar_of(mm, nametype="ID"):
+    """A recursive carrier grammar: every class is `<Class> [name] { attr: value ... }`."""
     kws = [keyword(c["name"]) for c in mm["classes"]]
     for a in kws:
         for b in kws:
@@ -52,18 +91,26 @@ def grammar_of(mm):
     for c in mm["classes"]:
         parts = [f"'{keyword(c['name'])}'"]
         if c["named"]:
-            parts.append("name=ID")
+            parts.append(f"name={nametype}")
         parts.append("'{'")
         for a in c["attrs"]:
             n, t = a["name"], a["typ"]
-            if a["cont"] and not a["many"]:
+            link = f"[{t}]" if nametype == "ID" else f"[{t}|{nametype}]"
+            if a["cont"] and t == "OBJECT":
+                # one attribute assigned at several places with different rules: textX types it OBJECT
+                # (and makes it a list)
+                if not a["many"]:
+                    raise tlc.MachineryError("an OBJECT-typed carrier attribute is a list")
+                alts = " | ".join(f"{n}+={r}" for r in a["alts"])
+                parts.append(f"('{n}:' '[' ({alts})* ']')?")
+            elif a["cont"] and not a["many"]:
                 parts.append(f"('{n}:' {n}={t})?")
             elif a["cont"]:
                 parts.append(f"('{n}:' '[' {n}*={t} ']')?")
             elif not a["many"]:
-                parts.append(f"('{n}:' {n}=[{t}])?")
+                parts.append(f"('{n}:' {n}={link})?")
             else:
-                parts.append(f"('{n}:' {n}+=[{t}][','])?")
+                parts.append(f"('{n}:' {n}+={link}[','])?")
         parts.append("'}'")
         rules[c["name"]] = f"{c['name']}: {' '.join(parts)};"
     for a in mm["abstracts"]:
@@ -99,16 +146,22 @@ def root_of(g):
     return g["par"].index(0) + 1
 
 
-def render(mm, g):
+def render(mm, g, nametype="ID"):
     """Model text of graph g (one object per line, indented)."""
     out = []
+    if nametype == "ID":
+        def nt(nm):
+            return nm
+    else:
+        def nt(nm):
+            return name_text(nametype, nm)
 
     def node(o, depth):
         c = class_of(mm, g["cls"][o - 1])
         kids = {k["a"]: k["e"] for k in g["kids"][o - 1]}
         refs = {r["a"]: r["names"] for r in g["refs"][o - 1]}
         pad = "  " * depth
-        head = pad + keyword(c["name"]) + (" " + g["name"][o - 1] if c["named"] else "") + " {"
+        head = pad + keyword(c["name"]) + (" " + nt(g["name"][o - 1]) if c["named"] else "") + " {"
         out.append(head)
         for a in c["attrs"]:
             n = a["name"]
@@ -127,7 +180,7 @@ def render(mm, g):
             else:
                 names = refs[n]
                 if names:
-                    out.append(pad + f"  {n}: " + ", ".join(names))
+                    out.append(pad + f"  {n}: " + ", ".join(nt(x) for x in names))
         out.append(pad + "}")
 
     node(root_of(g), 0)
@@ -217,7 +270,7 @@ def random_graph(rng, mm, n, names=None, ref_p=0.5, max_list=3):
         k = next(k for k in g["kids"][p - 1] if k["a"] == a["name"])
         if not a["many"] and k["e"]:
             continue
-        c = rng.choice(concrete_of(mm, a["typ"]))
+        c = rng.choice(allowed_classes(mm, a))
         k["e"].append(add(c, p))
     return g
 
